@@ -15,6 +15,8 @@ import SkyllhModel.Proofs.Store
 import SkyllhModel.Props.C16
 import SkyllhModel.Model.PseudoData
 import Mathlib.Analysis.SpecialFunctions.Trigonometric.Basic
+import SkyllhModel.Proofs.RealScalar
+import Mathlib.Algebra.Order.Round
 
 open Store StoreP Pseudo
 
@@ -864,3 +866,42 @@ theorem c07_scramble_mc_method (ts : List Table) (cache : Nat) (draw : List Int)
 /-- non-vacuity: drawing rows 2, 0, 2 of the demo MC and scrambling `ra` uniformly -/
 example : stepT (runT [] [.new C07.demoExp, .new C07.demoExp]) (.getSel 1 (.idx [2, 0, 2])) =
     (runT [] [.new C07.demoExp, .new C07.demoExp] ++ [⟨3, [(3, ⟨.i16, [2, 3, 2]⟩), (0, ⟨.f32, [12, 10, 12]⟩)]⟩], .ok (.cont 2)) := by decide
+
+
+/-! ### round 4: the number of generated events -/
+
+/-- **Without a pre-selection the background method draws exactly `n_bkg` events**: over the reals `n_bkg * mean / mean = n_bkg`
+for every non-zero expected mean (integer or not), so rounding it gives `n_bkg` — the generated array has the number of events
+that is reported. (The IEEE evaluation `fl(fl(n·m)/m)` can be one unit in the last place below `n`; `np.around` absorbs that,
+truncation would not: the executable `nBkgSelected` is compared with the implementation on every run.) -/
+theorem c07_n_bkg_no_preselection (n : ℕ) (mean : ℝ) (hm : mean ≠ 0) :
+    nBkgRaw n mean mean = (n : ℝ) ∧ round (nBkgRaw n mean mean) = (n : ℤ) := by
+  have h : nBkgRaw n mean mean = (n : ℝ) := by
+    simp only [nBkgRaw, TranscReal.ofN_def]
+    field_simp
+  exact ⟨h, by rw [h]; exact round_natCast n⟩
+
+/-- **With a pre-selection never more than `n_bkg` events are drawn** (and at least none): the drawn number is `n_bkg` scaled by
+the fraction of the expected background that survives the pre-selection. -/
+theorem c07_n_bkg_preselection_bounds (n : ℕ) (meanSel mean : ℝ) (hm : 0 < mean) (h0 : 0 ≤ meanSel) (h1 : meanSel ≤ mean) :
+    0 ≤ nBkgRaw n meanSel mean ∧ nBkgRaw n meanSel mean ≤ (n : ℝ) ∧
+    0 ≤ round (nBkgRaw n meanSel mean) ∧ round (nBkgRaw n meanSel mean) ≤ (n : ℤ) := by
+  have hn : (0 : ℝ) ≤ n := Nat.cast_nonneg n
+  have hraw0 : 0 ≤ nBkgRaw n meanSel mean := by
+    simp only [nBkgRaw, TranscReal.ofN_def]
+    positivity
+  have hraw1 : nBkgRaw n meanSel mean ≤ (n : ℝ) := by
+    simp only [nBkgRaw, TranscReal.ofN_def]
+    rw [div_le_iff₀ hm]
+    nlinarith
+  have hmono : ∀ x y : ℝ, x ≤ y → round x ≤ round y := by
+    intro x y hxy
+    rw [round_eq, round_eq]
+    exact Int.floor_le_floor (by linarith)
+  refine ⟨hraw0, hraw1, ?_, ?_⟩
+  · have := hmono _ _ hraw0
+    simpa using this
+  · have := hmono _ _ hraw1
+    simpa using this
+
+example : nBkgRaw 99 (873 / 10 : ℝ) (873 / 10) = 99 := (c07_n_bkg_no_preselection 99 _ (by norm_num)).1
